@@ -57,8 +57,10 @@ pub enum How {
     LocalOn,
     /// by a local mutation while it reported the flag off
     LocalOff,
-    /// by the ingestion of a synchronised row
-    Ingested,
+    /// by the ingestion of a synchronised row while the implementation reported the entity's index flag on
+    IngestedOn,
+    /// by the ingestion of a synchronised row while it reported the flag off
+    IngestedOff,
 }
 
 #[derive(Clone, Debug)]
@@ -92,6 +94,8 @@ pub struct World {
     pub row_of_uid: HashMap<String, u64>,
     pub words: BTreeSet<u64>,
     pub tick: i64,
+    /// searches asked again after an SQL error (see `query_retry`)
+    pub retries: std::cell::Cell<u64>,
 }
 
 fn site_key(case: u64, s: u64) -> Vec<u8> {
@@ -159,6 +163,7 @@ impl World {
             row_of_uid: HashMap::new(),
             words: BTreeSet::new(),
             tick: 0,
+            retries: std::cell::Cell::new(0),
         };
         w.step_clock();
         if nsites == 2 {
@@ -205,12 +210,36 @@ impl World {
         }
     }
 
+    /// a read through the real query path. Under heavy machine load a search that runs while the writer commits
+    /// the daily-log pass of the previous mutation now and then fails with SQLITE_CORRUPT_VTAB ("database disk image
+    /// is malformed") and succeeds when asked again: such an answer is not a result set, the question is asked again
+    /// (twice at most) and the event is counted (`search_retried_after_sql_error` in the evidence counters).
+    async fn query_retry(&self, s: usize, q: &str, p: Option<Vec<(&str, String)>>) -> Result<String, String> {
+        let mut last = String::new();
+        for attempt in 0..3 {
+            let pr = p.as_ref().map(|p| params(p));
+            match self.sites[s].inst.svc.query(q, pr).await {
+                Ok(r) => return Ok(r),
+                Err(e) => {
+                    eprintln!("# query error (attempt {}): {:?}", attempt, e);
+                    last = class(&e);
+                    if last != "sql" {
+                        break;
+                    }
+                    self.retries.set(self.retries.get() + 1);
+                    tokio::time::sleep(std::time::Duration::from_millis(50)).await;
+                }
+            }
+        }
+        Err(last)
+    }
+
     /// the search itself (the real query path) and the independent expectation
     async fn search(&self, s: usize, e: u64, t: u64) -> Result<(Vec<u64>, Vec<u64>), String> {
         let t = &word(t);
         let name = ENT_NAMES[e as usize];
         let q = format!("query {{ {}(search($t)) {{ id txt tag }} }}", name).replace(" tag", if e == 0 { " tag" } else { "" });
-        let res = self.sites[s].inst.svc.query(&q, Some(params(&[("t", t.to_string())]))).await.map_err(|e| { eprintln!("# query error: {:?}", e); class(&e) })?;
+        let res = self.query_retry(s, &q, Some(vec![("t", t.to_string())])).await?;
         let v: serde_json::Value = serde_json::from_str(&res).map_err(|e| e.to_string())?;
         let mut hits = vec![];
         for row in v[name].as_array().cloned().unwrap_or_default() {
@@ -220,7 +249,7 @@ impl World {
         hits.sort();
         // expectation: every row of the entity (plain query, no search) whose current text fields contain t
         let q2 = format!("query {{ {} {{ id txt tag }} }}", name).replace(" tag", if e == 0 { " tag" } else { "" });
-        let res = self.sites[s].inst.svc.query(&q2, None).await.map_err(|e| { eprintln!("# query error: {:?}", e); class(&e) })?;
+        let res = self.query_retry(s, &q2, None).await?;
         let v: serde_json::Value = serde_json::from_str(&res).map_err(|e| e.to_string())?;
         let mut expect = vec![];
         for row in v[name].as_array().cloned().unwrap_or_default() {
@@ -240,7 +269,7 @@ impl World {
         let w = &word(t);
         let num = |v: &serde_json::Value| self.row_of_uid.get(v["id"].as_str().unwrap_or("")).copied().unwrap_or(u64::MAX);
         let q = "query { Doc { id kids(search($t)) { id } } }";
-        let res = self.sites[s].inst.svc.query(q, Some(params(&[("t", w.to_string())]))).await.map_err(|e| { eprintln!("# query error: {:?}", e); class(&e) })?;
+        let res = self.query_retry(s, q, Some(vec![("t", w.to_string())])).await?;
         let v: serde_json::Value = serde_json::from_str(&res).map_err(|e| e.to_string())?;
         let mut hits = vec![];
         for p in v["Doc"].as_array().cloned().unwrap_or_default() {
@@ -252,7 +281,7 @@ impl World {
         }
         hits.sort();
         let q2 = "query { Doc(nullable(kids)) { id kids { id txt tag } } }";
-        let res = self.sites[s].inst.svc.query(q2, None).await.map_err(|e| { eprintln!("# query error: {:?}", e); class(&e) })?;
+        let res = self.query_retry(s, q2, None).await?;
         let v: serde_json::Value = serde_json::from_str(&res).map_err(|e| e.to_string())?;
         let mut expect = vec![];
         for p in v["Doc"].as_array().cloned().unwrap_or_default() {
@@ -303,8 +332,8 @@ impl World {
             return if former { Some("stale-hit-through-reused-slot") } else { None };
         }
         Some(match hist[i + 1].how {
-            How::Ingested => "stale-hit-after-synchronised-update",
-            How::LocalOff => "stale-hit-after-write-while-index-off",
+            How::IngestedOn => "stale-hit-after-synchronised-update",
+            How::LocalOff | How::IngestedOff => "stale-hit-after-write-while-index-off",
             How::LocalOn => "stale-hit",
         })
     }
@@ -328,9 +357,9 @@ impl World {
                 "index-enabled-by-model-update-ignored"
             } else {
                 match site.hist.get(n).and_then(|h| h.last().map(|v| (v.how, h.len()))) {
-                    Some((How::Ingested, 1)) => "synchronised-row-missed",
-                    Some((How::Ingested, _)) => "synchronised-update-missed",
-                    Some((How::LocalOff, _)) => "written-while-index-off-missed",
+                    Some((How::IngestedOn, 1)) => "synchronised-row-missed",
+                    Some((How::IngestedOn, _)) => "synchronised-update-missed",
+                    Some((How::LocalOff, _)) | Some((How::IngestedOff, _)) => "written-while-index-off-missed",
                     _ => "missed-row",
                 }
             };
@@ -528,7 +557,7 @@ impl World {
                     // the version the source holds is the one that is written
                     let incoming = Ver {
                         words: self.sites[t].hist.get(&n).and_then(|h| h.last()).map(|v| v.words.clone()).unwrap_or_default(),
-                        how: How::Ingested,
+                        how: if self.sites[s].engine_flag[e as usize] { How::IngestedOn } else { How::IngestedOff },
                     };
                     match (b, a) {
                         (Some(b), Some(a)) if b.1 == a.1 => {
